@@ -243,6 +243,32 @@ func verifC06Case(vc *verifCtx, ci int) {
 				if !verifC06CheckStore(vc, stCopy, ref, i, r, i <= exhaustiveUpTo, "after-reject") {
 					return
 				}
+				// ... and must not have consumed anything: the store
+				// serialises as before and keeps accepting the honest
+				// continuation (BOLT-3 insert_secret has no effect
+				// when it fails).
+				var after bytes.Buffer
+				stCopy.Encode(&after)
+				vc.Count("oracle_reject_no_effect", 1)
+				if !bytes.Equal(after.Bytes(), buf.Bytes()) {
+					vc.Violation("rejects_inconsistent", "rejected-secret-changed-store",
+						fmt.Sprintf("index %d: a rejected secret changed the serialised store", i), nil)
+					return
+				}
+				refCont := *ref
+				for c := uint64(0); c < 4; c++ {
+					hs := verifC06Gen(seed, (1<<48-1)-(i+c))
+					hh := chainhash.Hash(hs)
+					if err := stCopy.AddNextEntry(&hh); err != nil {
+						vc.Violation("accepts_honest", "after-rejection",
+							fmt.Sprintf("after rejecting a bad secret at %d the store rejects the honest secret %d: %v", i, i+c, err), nil)
+						return
+					}
+					refCont.insert(hs)
+					if !verifC06CheckStore(vc, stCopy, &refCont, i+c+1, r, i <= exhaustiveUpTo, "continue-after-reject") {
+						return
+					}
+				}
 			} else {
 				vc.Count("hostile_undetectable", 1)
 				if !verifC06CheckStore(vc, stCopy, &refCopy, i+1, r, i <= exhaustiveUpTo, "after-accepted-bad") {
